@@ -9,7 +9,7 @@ LEAN_MODULES = ["KaVerif.Props.C11"]
 GEN = ["Tokens"]
 THEOREMS = ["KaVerif.C11_spans", "KaVerif.C11_total", "KaVerif.C11_token_span", "KaVerif.C11_suffix_only",
             "KaVerif.C11_longest_const", "KaVerif.C11_const_complete", "KaVerif.C11_int_value_ctx", "KaVerif.C11_int_value",
-            "KaVerif.C11_based_value", "KaVerif.C11_sci_value", "KaVerif.C11_range_split", "KaVerif.C11_keywords_table",
+            "KaVerif.C11_based_value_partial", "KaVerif.C11_sci_value", "KaVerif.C11_range_split", "KaVerif.C11_keywords_table",
             "KaVerif.C11_keywords", "KaVerif.C11_closing_string", "KaVerif.C11_closing_instant",
             "KaVerif.C11_whitespace_insensitive", "KaVerif.C11_whitespace_tags_values",
             "KaVerif.Lexer.constTokens_prefixOrdered", "KaVerif.Lexer.alphaTokens_noPrefix", "KaVerif.Lexer.constTokens_noSpace",
@@ -142,7 +142,10 @@ def oracle(ctx, T, s, r, how):
                 ctx.violation("lex-numeral:" + s, s, "a number token spans a numeral", "%r in %s" % (lexeme, r.dump), how)
             else:
                 exact, is_dec = exact_of_numeral(lexeme)
-                if exact is None:
+                if exact is None and re.match(r"0b0[bB][01]+\Z", lexeme) and v == int(lexeme[4:], 2):
+                    # int("0b1", base=2) swallows a second binary prefix: one recorded finding, one key
+                    ctx.violation("lex-value-double-prefix", s, "`%s`: BadNumberError, `b` is no binary digit" % lexeme, repr(v), how)
+                elif exact is None:
                     ctx.violation("lex-value:" + s, s, "a based literal with a digit beyond its base is an error", r.dump, how)
                 elif not is_dec:
                     if isinstance(v, bool) or not isinstance(v, (int, Fraction)) or Fraction(v) != exact:
@@ -270,7 +273,7 @@ def gen_token(rng, consts):
 
 
 def gen_random(rng, maxlen):
-    frags = ["..", "==", "!=", "<=", ">=", "to", "in", "0x", "0b", "0o", "0d", "e-", "e+", "1.", ".5", "\\\"", "1e5", "int", "tox"]
+    frags = ["0b0b1", "0b0B", "..", "==", "!=", "<=", ">=", "to", "in", "0x", "0b", "0o", "0d", "e-", "e+", "1.", ".5", "\\\"", "1e5", "int", "tox"]
     out = []
     n = rng.randrange(1, maxlen + 1)
     while sum(map(len, out)) < n:
@@ -314,7 +317,7 @@ def check(ctx):
               "\"", "\"\\\"", "\"\\\"\"", "#", "##", "#a", "\"a\" \"b", "1 \"", "a #", "..5", "...5", "1...5", "1.. 5", "1 ..5", "1. .5",
               "123456789012345678901234567890", "0.1", "0.30000000000000004", "123456789.123456789e-5", "1e22", "1e23", "1.0e23", "5e-324",
               "2.5e-324", "1.7976931348623157e308", "1.7976931348623159e308", "0d0012", "007", "1_000", "x_1", "_x", "$5", "5$", "€μ¥£",
-              "a\tb\nc\x0bd\x0ce\rf", "f(x,y)={1,2}:[3,4]|5%6^7!;", "±1", "1±2", "1e400", "1e-400", "9" * 400 + ".5", "0." + "0" * 400 + "1"]
+              "a\tb\nc\x0bd\x0ce\rf", "0b0b1", "0b0B11", "0b0b", "0b0b2", "0x0x1", "0o0o7", "0d0d1", "1+0b0b101 ", "f(x,y)={1,2}:[3,4]|5%6^7!;", "±1", "1±2", "1e400", "1e-400", "9" * 400 + ".5", "0." + "0" * 400 + "1"]
     for s in corpus:
         add(s, "corpus")
     # ---- exhaustive over the core alphabet
@@ -416,12 +419,15 @@ def check(ctx):
 LEVEL_TEXT = ("Machine-checked proof (Lean 4) over an executable model of ka.tokens (tokenise, read_token dispatch, constant-token "
               "scan over the generated CONST_TOKENS table, identifier/number/string/instant readers): for every string, of any length, "
               "token spans are ordered, non-empty, inside the input and separated by whitespace only; read_token depends only on the "
-              "suffix; constant tokens are longest-match (table fact re-checked by the kernel on every run); integer, based and "
-              "scientific literals have the exact value of their spelling; a..b splits into number, range, number; to/in are keywords "
-              "exactly when not followed by a letter; string/instant literals close at the first (unescaped) delimiter or are reported "
-              "at their opening position. The hand-written readers are tied to the code by exhaustive correspondence over all short "
+              "suffix; inserting whitespace anywhere that is not strictly inside a token leaves the tokens (tags, values) unchanged and "
+              "only moves later spans; constant tokens are longest-match (table facts re-checked by the kernel on every run); integer, "
+              "based and scientific literals have the exact value of their spelling; a..b splits into number, range, number; to/in are "
+              "keywords exactly when not followed by a letter; string/instant literals close at the first (unescaped) delimiter or are "
+              "reported at their opening position. The hand-written readers are tied to the code by exhaustive correspondence over all short "
               "strings of a core alphabet plus structured and random inputs, and by the translator's check of the regex sources.")
-LEVEL_NOTE = ("Theorems are about the model (Model/Lexer.lean). Decimal literals: the model rounds the exact decimal to a double; the "
+LEVEL_NOTE = ("Theorems are about the model (Model/Lexer.lean). The based-literal theorem is `_partial`: it excludes a second binary "
+              "prefix (`0b0b1` is read as 1 by the current tree: recorded finding, fix proposed; the translator probes the code and the "
+              "exclusion disappears once the fix is in). Decimal literals: the model rounds the exact decimal to a double; the "
               "1e-15 claim is corresponded and checked by the oracle, not proved. Characters outside the model alphabet (e.g. Unicode "
               "whitespace/numeric characters) are tested against the oracle on the real code only.")
 TECHNIQUE = "Lean 4 proofs by induction over the input + generated token table (kernel decide) + exhaustive/differential correspondence"
